@@ -114,7 +114,8 @@ Definition holds_b (o : orun) : bool :=
   nat_list_eqb (last_snap o) (map uid lg) &&
   (* each of them passes the verifier *)
   forallb (fun b : bool => b) (or_verified o) && (length (or_verified o) =? length (or_result o)) &&
-  negb (length (or_result o) =? 0) &&
+  (* (an empty result is not excluded by C01: when no initial graph can be evaluated the archive
+     stays empty; non-emptiness is the business of C07, under its premise) *)
   if or_multi o then
     (* no returned individual is dominated by any recorded individual *)
     forallb (fun r => forallb (fun x => negb (f_dom (fitness x) (fitness r))) (recorded o)) lg
@@ -122,7 +123,7 @@ Definition holds_b (o : orun) : bool :=
     (* at most keep_n_best; nothing recorded is better than the best returned one *)
     (length lg <=? or_keep o) &&
     match lg with
-    | [] => false
+    | [] => forallb (fun g => match snd g with [] => true | _ => false end) (or_gens o)
     | best :: _ => forallb (fun x => negb (f_better (fitness x) (fitness best))) (recorded o)
     end.
 
